@@ -1286,14 +1286,14 @@ class Gen:
                     cand = Fraction(a - a % (1 << k)) * (1 if b >= 0 else -1)
                 if lo - 1 < cand < hi + 1 and cand not in out:
                     out.append(cand)
-            return out
+            return out[:3] + ([out[3 + r.below(len(out) - 3)]] if len(out) > 3 else [])
         full = 1 << w
         cands = [half - 1, half, full - 1, full, full + half, -1, -half, -half - 1, half + 1 + r.below(50), r.next()]
         out = []
         for c in cands:
             v = conv(S, c)
             if v not in out: out.append(v)
-        return out[:4] + [out[4 + r.below(len(out) - 4)]] if len(out) > 5 else out
+        return out[:3] + [out[3 + r.below(len(out) - 3)]] if len(out) > 4 else out
 
     def unit_ncast(self, src_index):
         r = self.r
